@@ -119,6 +119,19 @@ func genPool(t *rapid.T) []poolExpr {
 		}
 	}
 
+	// now and then literal siblings which split a tree node inside a segment (/abc and /a:b share "/a", and /a itself
+	// has no rule), owned by different sources, next to a wildcard expression matching the same requests: removing one
+	// sibling makes the tree merge nodes, which must not change what the surviving one allows
+	if rapid.IntRange(0, 2).Draw(t, "splitSiblings") == 0 {
+		flag := rapid.Bool().Draw(t, "siblingBT")
+		for _, sib := range rapid.SampledFrom([][]string{{"/abc", "/a:b", "/:p1"}, {"/ab", "/a*", "/:p1"}, {"/b/abc", "/b/ab:", "/b/:p2"}, {"/abc/a", "/ab:/a", "/:p1/a"}}).Draw(t, "siblings") {
+			if !seen[sib] {
+				seen[sib] = true
+				pool = append(pool, poolExpr{S: sib, BT: flag})
+			}
+		}
+	}
+
 	if rapid.IntRange(0, 3).Draw(t, "withInvalid") == 0 {
 		pool = append(pool, poolExpr{S: rapid.SampledFrom([]string{"/a/**/b", "/*rest/x", "/a/*x/:y"}).Draw(t, "invalid"), BT: rapid.Bool().Draw(t, "bt")})
 	}
